@@ -11,7 +11,7 @@
 From Coq Require Import ZArith List Bool Sorting.Sorted.
 From NV Require Import Common.Outcome Common.MachineInt Seq.Index Seq.IndexSpec Seq.Index_proofs
   Seq.Streams Seq.StreamsSpec Seq.Streams_proofs Seq.Streams_counter_proofs Seq.Streams_comb_proofs
-  Seq.Streams_combu_proofs Seq.Streams_obs_proofs Seq.Streams_adapt_proofs Seq.Streams_ext_proofs.
+  Seq.Streams_combu_proofs Seq.Streams_obs_proofs Seq.Streams_adapt_proofs Seq.Streams_ext_proofs Seq.Streams_permu_proofs.
 Import ListNotations.
 Open Scope Z_scope.
 
@@ -166,6 +166,16 @@ Theorem C11_perm_len_step_bounded : forall n t e, (n <= 6)%nat ->
   exists k, perm_len (snd (perm_step t)) = Ok (Some k) /\ perm_len t = Ok (Some (1 + k)).
 Proof. exact perm_len_step_bounded. Qed.
 Print Assumptions C11_perm_len_step_bounded.
+
+(* Permutations of EVERY base length n: the stream terminates from every reachable state, every
+   element is a permutation of 0..n-1, and the elements come in strictly increasing lexicographic
+   order, so none is repeated.  (That all n! of them appear, and len, are the n <= 6 theorems above.) *)
+Theorem C11_perm_sound_unbounded : forall n,
+  exists l, yields perm_step (perm_init n) l /\ Forall (is_perm n) l /\
+    StronglySorted (fun a b => lex_lt a b = true) l /\
+    forall t, reaches perm_step (perm_init n) t -> exists l', yields perm_step t l'.
+Proof. exact perm_sound_unbounded. Qed.
+Print Assumptions C11_perm_sound_unbounded.
 
 (* ================================================================ Combinations: every n and k *)
 (* no len override: len is the default (count by iterating a clone).  For EVERY base length n
